@@ -250,6 +250,17 @@ def check_case(case):
             # Fortran's treat a NaN operand differently, for a start)
             res.tag('skipped:non-finite-starting-state')
             continue
+        if entry != 'evaluate' and opts.get('errors', 'raise') != 'raise':
+            # 'skip' / 'ignore' / 'replace' hide a non-finite intermediate value (overflow of a divergent iteration, say):
+            # the statement covers runs whose values stay finite, so probe the same run under errors='raise' first
+            probe = Py(range(n), **{k: np.asarray(p[k]).copy() for k in names})
+            probe.status = np.asarray(p.status).copy()
+            probe.check = list(p.check)
+            pk = dict(opts, errors='raise')
+            pr = R.quiet_call(attempt, probe.solve_t, t, **pk) if entry == 'solve_t' else R.quiet_call(attempt, probe.solve, **pk)
+            if not pr.ok and type(pr.exc).__name__ == 'SolutionError':
+                res.tag('skipped:non-finite-intermediate-values')
+                continue
         if entry == 'evaluate':
             a = R.quiet_call(attempt, p._evaluate, t)
             b = R.quiet_call(attempt, f._evaluate, rep.int(t))
